@@ -1780,13 +1780,15 @@ class EtreeDocumentNode(DocumentNode):
             if root is None:
                 return ''
             return ''.join(etree_iter_strings(root))
-        return ''.join(child.string_value for child in self.children)
+        return ''.join(child.string_value for child in self.children
+                       if isinstance(child, (ElementNode, TextNode)))
 
     @property
     def compat_string_value(self) -> str:
         if not self.children:
             return self.string_value
-        return ''.join(child.compat_string_value for child in self.children)
+        return ''.join(child.compat_string_value for child in self.children
+                       if isinstance(child, (ElementNode, TextNode)))
 
     @property
     def is_extended(self) -> bool:
